@@ -1946,8 +1946,8 @@ class tensor:
                     copy=False,
                 )
 
-            # extract scalar if needed
-            if len(y) == 1:
+            # extract scalar if every mode was multiplied out
+            if dnew == 0:
                 return cast(float, y.item())
 
             return y
